@@ -194,4 +194,110 @@ theorem ae_seg_extend (L x es : List Entry) (pi pt : Nat)
       · rename_i h0; rw [if_neg h0] at h
         rw [List.getElem?_append_left (by omega)]; exact h
 
+/-- positions below `N` are untouched when every processed position below `N` already carries
+    the incoming entry's term (`N ≤ c.length`) -/
+theorem appendLeaderEntries_take_stable (es : List Entry) : ∀ (c : List Entry) (idx N : Nat),
+    1 ≤ idx → N ≤ c.length →
+    (∀ j e, es[j]? = some e → idx + j ≤ N → ∃ e', c[idx + j - 1]? = some e' ∧ e'.term = e.term) →
+    (appendLeaderEntries c idx es).take N = c.take N := by
+  induction es with
+  | nil => intro c idx N _ _ _; simp [appendLeaderEntries]
+  | cons x xs ih =>
+    intro c idx N hidx hN hagree
+    rw [appendLeaderEntries]
+    have hrest : ∀ (c' : List Entry), (∀ j e, xs[j]? = some e → idx + 1 + j ≤ N →
+        ∃ e', c'[idx + 1 + j - 1]? = some e' ∧ e'.term = e.term) → True := fun _ _ => trivial
+    by_cases hgt : idx > c.length
+    · rw [if_pos hgt]
+      -- idx - 1 ≥ c.length ≥ N: nothing below N is processed any more
+      rw [ih (c ++ [x]) (idx + 1) N (by omega) (by simp; omega)]
+      · rw [List.take_append_of_le_length hN]
+      · intro j e hj hle; omega
+    · rw [if_neg hgt]
+      have hclt : idx - 1 < c.length := by omega
+      rw [List.getElem?_eq_getElem hclt]
+      simp only []
+      by_cases hle : idx ≤ N
+      · obtain ⟨e', he', hte⟩ := hagree 0 x (by simp) (by omega)
+        rw [show idx + 0 - 1 = idx - 1 by omega, List.getElem?_eq_getElem hclt] at he'
+        simp only [Option.some.injEq] at he'
+        have hsame : ¬ (c[idx - 1]'hclt).term ≠ x.term := by rw [he']; simp [hte]
+        rw [if_neg hsame]
+        apply ih c (idx + 1) N (by omega) hN
+        intro j e hj hle'
+        have := hagree (j + 1) e (by simpa using hj) (by omega)
+        rw [show idx + (j + 1) - 1 = idx + 1 + j - 1 by omega] at this
+        exact this
+      · -- idx > N: whatever happens, it happens at positions ≥ idx - 1 ≥ N
+        by_cases hterm : (c[idx - 1]'hclt).term ≠ x.term
+        · rw [if_pos hterm]
+          rw [ih (c.take (idx - 1) ++ [x]) (idx + 1) N (by omega)
+              (by simp only [List.length_append, List.length_take, List.length_singleton]; omega)
+              (by intro j e _ h; omega)]
+          rw [List.take_append_of_le_length (by simp only [List.length_take]; omega),
+              List.take_take, Nat.min_eq_left (by omega)]
+        · rw [if_neg hterm]
+          exact ih c (idx + 1) N (by omega) hN (by intro j e _ h; omega)
+
+/-- after processing, the log agrees with the leader's canonical prefix `M` on everything the
+    request covers -/
+theorem appendLeaderEntries_prefix (cn : Nat → List Entry) (M : List Entry) (hM : Canon cn M) :
+    ∀ (es : List Entry) (c : List Entry) (idx : Nat),
+      1 ≤ idx → Canon cn c → c.take (idx - 1) = M.take (idx - 1) →
+      M.drop (idx - 1) = es →
+      (appendLeaderEntries c idx es).take (idx - 1 + es.length) = M.take (idx - 1 + es.length) := by
+  intro es
+  induction es with
+  | nil => intro c idx _ _ hpre _; simpa [appendLeaderEntries] using hpre
+  | cons e es ih =>
+    intro c idx hidx hc hpre hdrop
+    have hMidx : M[idx - 1]? = some e := by
+      have := congrArg (fun l => l[0]?) hdrop
+      simpa [List.getElem?_drop] using this
+    have hMtake : M.take idx = M.take (idx - 1) ++ [e] := by
+      have h1 : idx = (idx - 1) + 1 := by omega
+      conv => lhs; rw [h1]
+      rw [List.take_add_one, hMidx]; simp
+    have hdrop' : M.drop (idx + 1 - 1) = es := by
+      have : M.drop (idx - 1 + 1) = es := by
+        rw [← List.drop_drop, hdrop]; simp
+      rw [show idx + 1 - 1 = idx - 1 + 1 by omega]; exact this
+    have hMcanon : Canon cn (M.take idx) := canon_take cn M idx hM
+    have hlen : idx - 1 + (e :: es).length = idx + 1 - 1 + es.length := by
+      simp only [List.length_cons]; omega
+    rw [appendLeaderEntries, hlen]
+    by_cases hgt : idx > c.length
+    · rw [if_pos hgt]
+      have hclen : c.length = idx - 1 := by
+        have h1 := congrArg List.length hpre
+        rw [List.length_take, List.length_take] at h1
+        have := getElem?_lt M _ e hMidx
+        omega
+      have hceq : c = M.take (idx - 1) := by
+        rw [← hpre, List.take_of_length_le (by omega)]
+      apply ih (c ++ [e]) (idx + 1) (by omega)
+      · rw [hceq, ← hMtake]; exact hMcanon
+      · rw [show idx + 1 - 1 = idx by omega, hceq, ← hMtake, List.take_take, Nat.min_self]
+      · exact hdrop'
+    · rw [if_neg hgt]
+      have hclt : idx - 1 < c.length := by omega
+      have hcget : c[idx - 1]? = some (c[idx - 1]'hclt) := List.getElem?_eq_getElem hclt
+      rw [hcget]
+      simp only []
+      by_cases hterm : (c[idx - 1]'hclt).term ≠ e.term
+      · rw [if_pos hterm]
+        apply ih (c.take (idx - 1) ++ [e]) (idx + 1) (by omega)
+        · rw [hpre, ← hMtake]; exact hMcanon
+        · rw [show idx + 1 - 1 = idx by omega, hpre, ← hMtake, List.take_take, Nat.min_self]
+        · exact hdrop'
+      · rw [if_neg hterm]
+        have hteq : (c[idx - 1]'hclt).term = e.term := Decidable.of_not_not hterm
+        apply ih c (idx + 1) (by omega) hc
+        · rw [show idx + 1 - 1 = idx by omega]
+          have h1 := hc (idx - 1) _ hcget
+          have h2 := hM (idx - 1) e hMidx
+          rw [show idx - 1 + 1 = idx by omega] at h1 h2
+          rw [h1, h2, hteq]
+        · exact hdrop'
+
 end Neumann.Raft
